@@ -5,34 +5,56 @@ import json
 
 from vlib.common import cbool, clist, cnat, copt, cz
 
+from props import c16_drape as DR
+
 ID = "C16"
 PROPERTIES_V = "theories/Properties/C16.v"
-CASE_IMPORTS = "From GV Require Import Prelude.Base Model.Merge."
+EXTRA_PROPERTIES_V = ["theories/Properties/C16D.v"]  # drape models (Model/MergeDrape.v)
+CASE_IMPORTS = "From GV Require Import Prelude.Base Model.Merge Model.MergeDrape."
 ALLOWED_AXIOMS: list = []
-REFUTED = ["C16_old_code_refuted (the pre-repair transcription; the repaired code is what Model/Merge.v follows)"]
+REFUTED = ["C16_old_code_refuted (the pre-repair transcription; the repaired code is what Model/Merge.v follows)",
+           "C16D_merge_total_refuted (drape models: a valid single-prism input makes the merger raise IndexError; open finding "
+           "drape-merge-single-prism-refused)"]
 PARTIAL = ["C16_cells_partial (the code meets the cell specification when every input but the last has its last vertex referenced)",
            "C16_merged_data + C16_merged_data_blank_elsewhere (values at the right offsets and no-data where an input lacks the data set, for all "
-           "input lists with distinct labels per input; 'inputs unchanged' is checked by correspondence and oracle only: the model is purely functional)"]
+           "input lists with distinct labels per input; 'inputs unchanged' is checked by correspondence and oracle only: the model is purely functional)",
+           "C16D_merge_total_partial (drape models: the merge of two or more canonical inputs succeeds when every input has at least two prisms; "
+           "all other C16D_* theorems hold for ALL lists of such inputs)"]
 LEVEL_TEXT = ("Coq theorems over ALL lists of inputs (any sizes, cells, data): merged vertices are the inputs' vertices in order; the cell "
               "specification joins the same coordinates (C16_spec_*); the code's offset rule equals the specification iff tails are referenced "
               "(C16_cells_partial) and the full statement is refuted with a witness (C16_cells_refuted = open known finding); merged data sit at "
               "their input's offset under their own label (C16_merged_data, by an invariant over the merge_data double loop). Tie: hand-written "
-              "model Merge.v vs. the real CurveMerger/SurfaceMerger/PointsMerger on generated inputs, evaluated by vm_compute; independent oracle.")
+              "model Merge.v vs. the real CurveMerger/SurfaceMerger/PointsMerger on generated inputs, evaluated by vm_compute; independent oracle. "
+              "Drape models (Properties/C16D.v over Model/MergeDrape.v, a transcription of DrapeModelMerger.create_object/_ghost_point/merge_data on "
+              "top of Merge.v's merge_data loop): for ALL lists of >= 2 canonical drape models with >= 2 prisms each the merge succeeds "
+              "(C16D_merge_total_partial; refuted for single-prism inputs = open finding), create_object equals the closed-form specification "
+              "(C16D_code_meets_spec), every input prism/layer re-appears at poff/loff + j with first-layer/column shifted by the input's layer/prism "
+              "offset (C16D_prism_preserved, C16D_layer_preserved), each output prism owns exactly its input's layers (C16D_prism_owns_its_layers, "
+              "C16D_output_canonical), exactly two one-layer ghosts sit between consecutive inputs and nowhere else (C16D_ghosts_between_inputs, "
+              "C16D_prisms_complete, C16D_layers_complete, C16D_counts), and after the ind_map re-ordering every input's cell values sit at its "
+              "layers' positions with no-data in ghost cells and where an input lacks the data set (C16D_data_*). Tie: the real DrapeModelMerger on "
+              "generated inputs (live and re-opened) vs. agree_drape by vm_compute; independent oracle.")
 TRUSTED = [
     "Coq 8.16.1 kernel + vm_compute (correspondence evaluation); no axioms (Print Assumptions: closed)",
     "hand-written model coq/theories/Model/Merge.v of PointsMerger/CellMerger.create_object and BaseMerger.merge_data; tied to the code by running both on the same generated inputs",
     "numpy vstack / slice assignment / nanmax semantics, geoh5py object creation and add_data (exercised, not modelled)",
     "tools/props/c16.py (generator, driver, canonicalisation int<->float on a small integer lattice, oracle)",
-    "DrapeModelMerger is not modelled (oracle-only via the repository tests)",
+    "hand-written model coq/theories/Model/MergeDrape.v of DrapeModelMerger.create_object/_ghost_point/merge_data, validate_objects (length) and the "
+    "DrapeModel.layers setter check; tied to the code by running both on the same generated drape models (tools/props/c16_drape.py)",
+    "DrapeModel.prisms/.layers getters return fresh float copies (so the in-place += of create_object does not touch the inputs): exercised by the "
+    "'inputs unchanged' observations, not modelled",
 ]
 ASSUMPTIONS = [
     "coordinates and data values are small integers so that float comparison is exact",
-    "inputs are Points, Curve or Surface objects with FloatData children",
+    "inputs are Points, Curve or Surface objects with FloatData children; or DrapeModel objects in canonical layout (layer blocks in prism order, "
+    "column = prism index, >= 1 layer per prism) with CELL FloatData children (VERTEX data on drape models and merge_objects kwargs are not covered)",
 ]
 RULE = (
     "2-5 same-class inputs (Points/Curve/Surface), 1-8 lattice vertices each, random cells (about a third of inputs have "
     "unreferenced tail vertices, cells unordered), float data on a subset of inputs with names drawn with replacement; "
-    "non-trivial = some input has a vertex no cell uses or a data set is missing on some input"
+    "non-trivial = some input has a vertex no cell uses or a data set is missing on some input; "
+    "drape models: 2-4 inputs, 2-4 prisms each (4% of the cases have one single-prism input), 1-3 layers per prism, integer trace coordinates / "
+    "tops / bottoms, CELL data under 0-3 names each present on about half of the inputs; non-trivial = three or more inputs or a data set missing somewhere"
 )
 
 
@@ -77,6 +99,7 @@ def generate(rng, tier):
         names = rng.sample([0, 1, 2, 3], rng.range(0, 3))
         k = rng.range(2, 5)
         cases.append({"cls": cls, "inputs": [gen_input(rng, cls, names) for _ in range(k)]})
+    cases += DR.generate(rng, tier)  # drape models, drawn after the others so that those stay the same per seed
     return cases
 
 
@@ -110,6 +133,8 @@ def _snap(obj):
 
 
 def drive_one(case, work):
+    if case["cls"] == DR.CLS:
+        return DR.drive_one(case, work)
     import numpy as np
     from geoh5py import Workspace
     from geoh5py import objects as O
@@ -170,6 +195,8 @@ def _name_id(name):
 
 
 def case_term(case, obs, which="out"):
+    if case["cls"] == DR.CLS:
+        return DR.case_term(case, obs)
     if which not in obs:
         return "false"  # the model never refuses a well-formed merge
     o = obs[which]
@@ -191,12 +218,16 @@ def case_term(case, obs, which="out"):
 
 
 def model_term(case):
+    if case["cls"] == DR.CLS:
+        return DR.model_term(case)
     ins = clist(_inp_term(s) for s in case["inputs"])
     return f"(merge_verts {ins}, merge_cells {ins}, out_children {ins})"
 
 
 # ----------------------------------------------------------------------------- oracle (property text, independent of the model)
 def oracle(case, obs):
+    if case["cls"] == DR.CLS:
+        return DR.oracle(case, obs)
     fails = []
     if "crash" in obs:
         return [{"key": "driver-crash", "what": obs["crash"][:300]}]
@@ -262,6 +293,8 @@ def oracle(case, obs):
 
 
 def nontrivial(case, obs):
+    if case["cls"] == DR.CLS:
+        return DR.nontrivial(case, obs)
     ins = case["inputs"]
     tail = any(s["cells"] and max(v for c in s["cells"] for v in c) < len(s["verts"]) - 1 for s in ins)
     names = {d["name"] for s in ins for d in s["data"]}
@@ -270,6 +303,14 @@ def nontrivial(case, obs):
 
 
 def histogram(cases, obs):
+    dr = [(c, o) for c, o in zip(cases, obs) if c["cls"] == DR.CLS]
+    rest = [(c, o) for c, o in zip(cases, obs) if c["cls"] != DR.CLS]
+    h = _histogram([c for c, _ in rest], [o for _, o in rest])
+    h["drape"] = DR.histogram([c for c, _ in dr], [o for _, o in dr])
+    return h
+
+
+def _histogram(cases, obs):
     h = {"cls": {}, "n_inputs": {}, "unreferenced_tail": 0, "data_sets": {}, "dup_name_in_input": 0, "outcome": {}}
     for c, o in zip(cases, obs):
         h["cls"][c["cls"]] = h["cls"].get(c["cls"], 0) + 1
